@@ -672,11 +672,11 @@ fn recursion_case(rng: &mut Rng) -> String {
         3 => "type A { a: [A; 4] }".into(),
         4 => "type A { vftable { fn f(&self, a: A) -> A; }, a: *const A }".into(),
         5 => {
-            let d = *rng.pick(&[10usize, 100, 500, 1000]);
+            let d = *rng.pick(&[10usize, 30, 48, 63, 100, 500, 1000]);
             format!("type A {{ a: {}u8{} }}", "[".repeat(d), "; 1]".repeat(d))
         }
         6 => {
-            let d = *rng.pick(&[10usize, 100, 500, 1000]);
+            let d = *rng.pick(&[10usize, 30, 48, 63, 100, 500, 1000]);
             format!("type A {{ a: {}u8 }}", "*const ".repeat(d))
         }
         _ => {
@@ -905,6 +905,11 @@ pub fn corpus() -> Vec<(String, Input)> {
         ("corpus/brace-nesting-100000".into(), t(&format!("type A {}{}", "{".repeat(100_000), "}".repeat(100_000)))),
         ("corpus/paren-nesting-in-attribute-100000".into(), t(&format!("#[size{}4{}] type A {{ x: u32 }}", "(".repeat(100_000), ")".repeat(100_000)))),
         ("corpus/unclosed-bracket-nesting-100000".into(), t(&format!("type A {{ a: {}u8", "[".repeat(100_000)))),
+        // nesting at and just below the limit: still answered in time proportional to the text
+        ("corpus/array-nesting-64".into(), t(&format!("type A {{ a: {}u8{} }}", "[".repeat(63), "; 1]".repeat(63)))),
+        ("corpus/array-nesting-40".into(), t(&format!("type A {{ a: {}u8{} }}", "[".repeat(40), "; 1]".repeat(40)))),
+        ("corpus/array-of-pointer-nesting-60".into(), t(&format!("type A {{ a: {}u8{} }}", "[*const ".repeat(30), "; 1]".repeat(30)))),
+        ("corpus/array-nesting-64-malformed-innermost".into(), t(&format!("type A {{ a: {}u8{} }}", "[".repeat(63), "]".repeat(63)))),
         ("corpus/type-nesting-64".into(), t(&format!("type A {{ a: {}u8 }}", "*const ".repeat(63)))),
         ("corpus/type-nesting-65".into(), t(&format!("type A {{ a: {}u8 }}", "*const ".repeat(65)))),
         ("corpus/array-nesting-5000".into(), t(&format!("type A {{ a: {}u8{} }}", "[".repeat(5_000), "; 1]".repeat(5_000)))),
